@@ -9,7 +9,7 @@
 
 enum { IN_TEXT, IN_RANDOM, IN_EMPTY };
 // script steps: action + cumulative input offset in units of 1/4 of the input (q=4 -> all input)
-enum { A_RUN = 'R', A_FLUSH = 'F', A_BARRIER = 'B', A_FINISH = 'X', A_UPDATE_OK = 'U', A_UPDATE_BAD = 'u', A_REINIT_SAME = 'S', A_REINIT_DIFF = 'D', A_REINIT_BIGGER_BLOCKS = 'G', A_OFFER = 'P', A_UPDATE_ANY = 'V', A_FINISH_WORKER_ERROR = 'E', A_REINIT_ONE = 'O' };	/* O: re-init with ONE thread (the output queue shrinks below what is queued) */	/* E: the chain (LZMA1) is accepted by lzma_stream_encoder_mt() but refused when a worker builds its Block Header: FINISH must return that error, and return it again */	// P: ONE lzma_code(LZMA_RUN) call offering everything up to the offset with one more byte of output space; V: filters_update whose outcome depends on whether a Block is open
+enum { A_RUN = 'R', A_FLUSH = 'F', A_BARRIER = 'B', A_FINISH = 'X', A_UPDATE_OK = 'U', A_UPDATE_BAD = 'u', A_REINIT_SAME = 'S', A_REINIT_DIFF = 'D', A_REINIT_BIGGER_BLOCKS = 'G', A_OFFER = 'P', A_UPDATE_ANY = 'V', A_FINISH_WORKER_ERROR = 'E', A_REINIT_ONE = 'O', A_CREATE_FAILS = 'K' };	/* K<n>: the n-th thread creation fails (EAGAIN): lzma_code must answer LZMA_MEM_ERROR, lzma_end / re-init must work */	/* O: re-init with ONE thread (the output queue shrinks below what is queued) */	/* E: the chain (LZMA1) is accepted by lzma_stream_encoder_mt() but refused when a worker builds its Block Header: FINISH must return that error, and return it again */	// P: ONE lzma_code(LZMA_RUN) call offering everything up to the offset with one more byte of output space; V: filters_update whose outcome depends on whether a Block is open
 typedef struct { const char *script; int input, plen, bsz, threads, timeout, outchunk, inchunk, early; int bp, bt, bs; int tier; } row;
 // script syntax: pairs <action><quarter>, e.g. "R2X4" = RUN up to half the input, then FINISH with the rest.
 static const row ROWS[] = {
@@ -56,6 +56,9 @@ static const row ROWS[] = {
 	{ "R2G0X4",      IN_TEXT,    8,   2,  2,  0, 0,  0, 0,    1, 0, 0, 0 },	// re-init, same thread count, three times the block size (input buffers must be re-made)
 	{ "X4G0X4",      IN_RANDOM,  8,   2,  2,  0, 0,  0, 0,    0, 0, 0, 0 },
 	{ "X4G0X4",      IN_RANDOM,  12,  2,  2,  0, 0,  0, 0,    1, 0, 0, 1 },
+	{ "K1X4",        IN_TEXT,    8,   4,  2,  0, 0,  0, 0,    1, 0, 0, 0 },	// first / second / third worker cannot be created
+	{ "K2X4",        IN_TEXT,    12,  4,  3,  0, 0,  0, 0,    1, 0, 0, 0 },
+	{ "K3X4",        IN_TEXT,    12,  4,  3,  0, 3,  0, 0,    0, 0, 0, 0 },
 	{ "R4X4",        IN_TEXT,    3,   4,  2,  0, 0,  0, 0,    2, 0, 0, 0 },	// every byte handed over with LZMA_RUN (the Block is not full, its worker waits for more), then the closing action WITHOUT new input: only the state changes
 	{ "R4F4X4",      IN_TEXT,    6,   4,  2,  0, 0,  0, 0,    1, 0, 0, 0 },
 	{ "R4B4R4X4",    IN_TEXT,    7,   4,  2,  0, 0,  2, 0,    1, 0, 0, 0 },
@@ -122,7 +125,7 @@ static int expected_blocks(size_t *sz, uint64_t *chain_change_at) {
 	for (; *p; p += 2) { size_t upto = plen * (p[1] - '0') / 4; char a = p[0];
 		if (a == A_REINIT_SAME || a == A_REINIT_DIFF || a == A_REINIT_BIGGER_BLOCKS || a == A_REINIT_ONE) { n = 0; start = 0; after_reinit = 1; *chain_change_at = (uint64_t)-1; if (a == A_REINIT_BIGGER_BLOCKS) bs = (size_t)R->bsz * 3; continue; }
 		if (a == A_UPDATE_OK) { *chain_change_at = n; continue; }
-		if (a == A_UPDATE_BAD || a == A_UPDATE_ANY || a == A_OFFER) continue;
+		if (a == A_UPDATE_BAD || a == A_UPDATE_ANY || a == A_OFFER || a == A_CREATE_FAILS) continue;
 		if (after_reinit) { after_reinit = 0; }
 		if (a == A_FLUSH || a == A_BARRIER || a == A_FINISH) { size_t len = upto - start; while (len) { size_t c = len > bs ? bs : len; sz[n++] = c; len -= c; } start = upto; }
 		prev = upto; }
@@ -130,7 +133,7 @@ static int expected_blocks(size_t *sz, uint64_t *chain_change_at) {
 }
 
 static void run_script(obs *o, int threads, int probe) {
-	memset(o, 0, sizeof *o); atomic_store(&a_live, 0); ocap = 0; calls = 0; maxpo = 0; bsz_now = 0;
+	memset(o, 0, sizeof *o); atomic_store(&a_live, 0); ocap = 0; calls = 0; maxpo = 0; bsz_now = 0; vs_fail_create_at = 0;
 	lzma_stream s = LZMA_STREAM_INIT;
 	if (!enc_init(&s, threads)) { o->r = 98; BAD(o, "init failed"); return; }
 	s.next_out = comp; s.avail_out = 0; lzma_ret r = LZMA_OK; o->chg_dyn = -2;
@@ -140,7 +143,12 @@ static void run_script(obs *o, int threads, int probe) {
 		case A_RUN: r = step(&s, upto, LZMA_RUN, o, probe); if (r != LZMA_OK && r != 77) BAD(o, "RUN returned %d", r); break;
 		case A_FLUSH: r = step(&s, upto, LZMA_FULL_FLUSH, o, probe); if (r == LZMA_STREAM_END) { if (!prefix_decodes(s.total_out, upto, o)) BAD(o, "after FULL_FLUSH the output so far does not decode to the %zu input bytes given", upto); r = LZMA_OK; } else if (r != 77) BAD(o, "FULL_FLUSH returned %d", r); break;
 		case A_BARRIER: r = step(&s, upto, LZMA_FULL_BARRIER, o, probe); if (r == LZMA_STREAM_END) r = LZMA_OK; else if (r != 77) BAD(o, "FULL_BARRIER returned %d", r); break;
-		case A_FINISH: r = step(&s, upto, LZMA_FINISH, o, probe); break;
+		case A_CREATE_FAILS: vs_fail_create_at = p[1] - '0'; continue;
+		case A_FINISH: r = step(&s, upto, LZMA_FINISH, o, probe);
+			if (vs_fail_create_at && r == LZMA_MEM_ERROR) {	// the documented answer to a failed thread creation; the same handle is initialised again and encodes everything
+				vs_fail_create_at = 0; if (!enc_init(&s, threads)) { r = 98; BAD(o, "re-init after a failed thread creation failed"); break; }
+				ocap = 0; s.next_out = comp; s.avail_out = 0; s.next_in = plain; s.avail_in = 0; maxpo = 0; r = step(&s, upto, LZMA_FINISH, o, 0); }
+			break;
 		case A_FINISH_WORKER_ERROR: { r = step(&s, upto, LZMA_FINISH, o, probe); if (r == 77) break;
 			if (r == LZMA_OK || r == LZMA_STREAM_END || r == LZMA_BUF_ERROR || r >= 90) { BAD(o, "a worker failed but lzma_code(LZMA_FINISH) returned %d", r); break; }
 			lzma_ret again = lzma_code(&s, LZMA_FINISH); calls++; if (again != r) BAD(o, "worker error %d was reported once, the next call returned %d", r, again); r = 55; break; }
